@@ -1,7 +1,11 @@
 import Mdsort.Proofs.EvalAttSim
 
 /-!
-# What `parseRuleA` recognises, and monotonicity of the specification run (C03 with attachments)
+# What `parseRuleAW` recognises, and monotonicity of the specification run (C03 with attachments)
+
+The simulation works with the widened shape (`pass` / `break` anywhere in an action list,
+`Spec.parseRuleAW`); the shape with the control action last (`Spec.parseRuleA`) is a special case
+(`att_parseRulesAW_of_parseRulesA`).
 -/
 
 namespace Mdsort.Proofs
@@ -12,12 +16,12 @@ open Mdsort Mdsort.Model Mdsort.Spec
 def att_parseAllA : List Expr → Option (List RuleA)
   | [] => some []
   | x :: xs =>
-    match parseRuleA x, att_parseAllA xs with
+    match parseRuleAW x, att_parseAllA xs with
     | some r, some rs => some (r :: rs)
     | _, _ => Option.none
 
 theorem att_parseAllA_snoc : ∀ (xs : List Expr) (rs : List RuleA) (x : Expr) (r : RuleA),
-    att_parseAllA xs = some rs → parseRuleA x = some r → att_parseAllA (xs ++ [x]) = some (rs ++ [r]) := by
+    att_parseAllA xs = some rs → parseRuleAW x = some r → att_parseAllA (xs ++ [x]) = some (rs ++ [r]) := by
   intro xs
   induction xs with
   | nil =>
@@ -28,7 +32,7 @@ theorem att_parseAllA_snoc : ∀ (xs : List Expr) (rs : List RuleA) (x : Expr) (
   | cons y ys ih =>
     intro rs x r h hx
     simp only [att_parseAllA] at h
-    cases hy : parseRuleA y with
+    cases hy : parseRuleAW y with
     | none => simp [hy] at h
     | some ry =>
       cases hys : att_parseAllA ys with
@@ -38,17 +42,17 @@ theorem att_parseAllA_snoc : ∀ (xs : List Expr) (rs : List RuleA) (x : Expr) (
         subst h
         simp [att_parseAllA, hy, ih rys x r hys hx]
 
-theorem att_parseRulesA_orChain : ∀ (e : Expr) (rs : List RuleA), parseRulesA e = some rs →
+theorem att_parseRulesA_orChain : ∀ (e : Expr) (rs : List RuleA), parseRulesAW e = some rs →
     att_parseAllA (orChain e) = some rs := by
   intro e
   induction e with
   | or lno l r ihl _ =>
     intro rs h
-    rw [parseRulesA] at h
-    cases hl : parseRulesA l with
+    rw [parseRulesAW] at h
+    cases hl : parseRulesAW l with
     | none => simp [hl] at h
     | some ls =>
-      cases hr : parseRuleA r with
+      cases hr : parseRuleAW r with
       | none => simp [hl, hr] at h
       | some x =>
         simp only [hl, hr, Option.some.injEq] at h
@@ -57,134 +61,399 @@ theorem att_parseRulesA_orChain : ∀ (e : Expr) (rs : List RuleA), parseRulesA 
         exact att_parseAllA_snoc _ _ _ _ (ihl ls hl) hr
   | _ =>
     intro rs h
-    simp only [parseRulesA, Option.map_eq_some_iff] at h
+    simp only [parseRulesAW, Option.map_eq_some_iff] at h
     obtain ⟨x, hx, rfl⟩ := h
     simp [orChain, att_parseAllA, hx]
 
+/-- A list of actions and attachment blocks (no `pass` / `break`). -/
 def att_parseActs : List Expr → Option (List ActA)
   | [] => some []
   | x :: xs =>
-    match parseActA x, att_parseActs xs with
+    match parseActAW x, att_parseActs xs with
     | some a, some as => some (a :: as)
     | _, _ => Option.none
 
-theorem att_parseActs_snoc : ∀ (xs : List Expr) (as : List ActA) (x : Expr) (a : ActA),
-    att_parseActs xs = some as → parseActA x = some a → att_parseActs (xs ++ [x]) = some (as ++ [a]) := by
+/-- A list of `expractions`: its actions and attachment blocks in order, `pass` / `break` skipped. -/
+def att_parseItems : List Expr → Option (List ActA)
+  | [] => some []
+  | x :: xs =>
+    if (isCtlExpr x).isSome then att_parseItems xs
+    else
+      match parseActAW x, att_parseItems xs with
+      | some a, some as => some (a :: as)
+      | _, _ => Option.none
+
+theorem att_parseItems_snoc : ∀ (xs : List Expr) (x : Expr),
+    att_parseItems (xs ++ [x]) =
+      match att_parseItems xs with
+      | Option.none => Option.none
+      | some ls =>
+        if (isCtlExpr x).isSome then some ls
+        else match parseActAW x with
+          | some a => some (ls ++ [a])
+          | Option.none => Option.none := by
   intro xs
   induction xs with
   | nil =>
-    intro as x a h hx
-    simp only [att_parseActs, Option.some.injEq] at h
-    subst h
-    simp [att_parseActs, hx]
+    intro x
+    simp only [List.nil_append, att_parseItems]
+    by_cases hc : (isCtlExpr x).isSome = true
+    · simp [hc]
+    · simp only [hc, Bool.false_eq_true, if_false]
+      cases parseActAW x <;> simp
   | cons y ys ih =>
-    intro as x a h hx
+    intro x
+    simp only [List.cons_append, att_parseItems]
+    by_cases hy : (isCtlExpr y).isSome = true
+    · simp only [hy, if_true]; exact ih x
+    · simp only [hy, Bool.false_eq_true, if_false, ih x]
+      cases hpy : parseActAW y with
+      | none => cases att_parseItems ys <;> simp
+      | some a =>
+        cases hys : att_parseItems ys with
+        | none => simp
+        | some ls =>
+          simp only
+          by_cases hc : (isCtlExpr x).isSome = true
+          · simp [hc]
+          · simp only [hc, Bool.false_eq_true, if_false]
+            cases parseActAW x <;> simp
+
+theorem att_andChain_leaf (e : Expr) (h : ∀ lno l r, e ≠ .and lno l r) : andChain e = [e] := by
+  cases e <;> first | rfl | exact absurd rfl (h _ _ _)
+
+theorem att_andChain_ne_nil (e : Expr) : andChain e ≠ [] := by
+  cases e with
+  | and lno l r => simp [andChain]
+  | _ => rw [att_andChain_leaf _ (by intro _ _ _ h; cases h)]; simp
+
+theorem att_parseChainAW_leaf (e : Expr) (h : ∀ lno l r, e ≠ .and lno l r) :
+    parseChainAW e = if (isCtlExpr e).isSome then some [] else (parseActAW e).map fun x => [x] := by
+  cases e with
+  | and lno l r => exact absurd rfl (h _ _ _)
+  | _ => rw [parseChainAW]; intro _ _ _ hh; cases hh
+
+/-- `parseChainAW` reads the AND chain as the list of its items. -/
+theorem att_parseChainAW_andChain : ∀ (e : Expr), parseChainAW e = att_parseItems (andChain e) := by
+  intro e
+  induction e with
+  | and lno l r ihl _ =>
+    rw [parseChainAW, andChain, att_parseItems_snoc, ihl]
+    cases att_parseItems (andChain l) with
+    | none => rfl
+    | some ls =>
+      simp only
+      split
+      · rfl
+      · cases parseActAW r <;> rfl
+  | _ =>
+    rw [att_parseChainAW_leaf _ (by intro _ _ _ h; cases h), att_andChain_leaf _ (by intro _ _ _ h; cases h)]
+    simp only [att_parseItems]
+    split
+    · rfl
+    · cases parseActAW _ <;> rfl
+
+/-- Items without `pass` / `break` in front of the rest. -/
+theorem att_parseItems_append : ∀ (es tail : List Expr), (∀ x ∈ es, isCtlExpr x = Option.none) →
+    att_parseItems (es ++ tail) =
+      match att_parseActs es, att_parseItems tail with
+      | some a, some t => some (a ++ t)
+      | _, _ => Option.none := by
+  intro es
+  induction es with
+  | nil =>
+    intro tail _
+    simp only [List.nil_append, att_parseActs]
+    cases att_parseItems tail <;> simp
+  | cons y ys ih =>
+    intro tail h
+    have hy : (isCtlExpr y).isSome = false := by rw [h y (by simp)]; rfl
+    have hys : ∀ x ∈ ys, isCtlExpr x = Option.none := fun x hx => h x (by simp [hx])
+    simp only [List.cons_append, att_parseItems, hy, Bool.false_eq_true, if_false, att_parseActs, ih tail hys]
+    cases parseActAW y with
+    | none => cases att_parseActs ys <;> cases att_parseItems tail <;> simp
+    | some a => cases att_parseActs ys <;> cases att_parseItems tail <;> simp
+
+theorem att_parseActs_length : ∀ (es : List Expr) (as : List ActA), att_parseActs es = some as →
+    as.length = es.length := by
+  intro es
+  induction es with
+  | nil => intro as h; simp only [att_parseActs, Option.some.injEq] at h; subst h; rfl
+  | cons y ys ih =>
+    intro as h
     simp only [att_parseActs] at h
-    cases hy : parseActA y with
+    cases hy : parseActAW y with
     | none => simp [hy] at h
-    | some ry =>
+    | some a =>
       cases hys : att_parseActs ys with
       | none => simp [hy, hys] at h
       | some rys =>
         simp only [hy, hys, Option.some.injEq] at h
         subst h
-        simp [att_parseActs, hy, ih rys x a hys hx]
-
-theorem att_parseChainA_andChain : ∀ (e : Expr) (as : List ActA), parseChainA e = some as →
-    att_parseActs (andChain e) = some as := by
-  intro e
-  induction e with
-  | and lno l r ihl _ =>
-    intro as h
-    rw [parseChainA] at h
-    cases hl : parseChainA l with
-    | none => simp [hl] at h
-    | some ls =>
-      cases hr : parseActA r with
-      | none => simp [hl, hr] at h
-      | some x =>
-        simp only [hl, hr, Option.some.injEq] at h
-        subst h
-        rw [andChain]
-        exact att_parseActs_snoc _ _ _ _ (ihl ls hl) hr
-  | _ =>
-    intro as h
-    simp only [parseChainA, Option.map_eq_some_iff] at h
-    obtain ⟨x, hx, rfl⟩ := h
-    simp [andChain, att_parseActs, hx]
+        simp [ih rys hys]
 
 /-- The two kinds of action. -/
-theorem att_parseActA_spec {x : Expr} {a : ActA} (h : parseActA x = some a) :
-    (∃ l l' e rs, x = .attBlock l (.block l' e) ∧ a = .att l rs ∧ parseRulesA e = some rs) ∨
+theorem att_parseActA_spec {x : Expr} {a : ActA} (h : parseActAW x = some a) :
+    (∃ l l' e rs, x = .attBlock l (.block l' e) ∧ a = .att l rs ∧ parseRulesAW e = some rs) ∨
     (a = .plain x ∧ isActionExpr x = true) := by
   cases x with
   | attBlock l b =>
     cases b with
     | block l' e =>
       left
-      simp only [parseActA, Option.map_eq_some_iff] at h
+      simp only [parseActAW, Option.map_eq_some_iff] at h
       obtain ⟨rs, h1, h2⟩ := h
       exact ⟨l, l', e, rs, rfl, h2.symm, h1⟩
-    | _ => simp [parseActA, isActionExpr] at h
+    | _ => simp [parseActAW, isActionExpr] at h
   | _ =>
     right
-    simp only [parseActA, isActionExpr] at h
+    simp only [parseActAW, isActionExpr] at h
     first
       | (simp only [if_true, Option.some.injEq] at h; exact ⟨h.symm, rfl⟩)
       | (simp at h)
 
-theorem att_andChain_leaf (e : Expr) (h : ∀ lno l r, e ≠ .and lno l r) : andChain e = [e] := by
-  cases e <;> first | rfl | exact absurd rfl (h _ _ _)
+/-! ## where `pass` / `break` stand: the three shapes of a `placedOK` list -/
 
-/-- The two shapes of a rule: a nested block, or actions `es` followed by at most one control
-action. -/
-theorem att_parseRuleA_spec {x : Expr} {r : RuleA} (h : parseRuleA x = some r) :
+theorem isCtlExpr_isNone_iff (x : Expr) : isCtlExpr x = Option.none ↔ (isPassExpr x = false ∧ isBrkExpr x = false) := by
+  cases x <;> simp [isCtlExpr, isPassExpr, isBrkExpr]
+
+theorem isPassExpr_iff (x : Expr) : isPassExpr x = true ↔ ∃ l, x = .pass l := by
+  cases x <;> simp [isCtlExpr, isPassExpr]
+
+theorem isBrkExpr_iff (x : Expr) : isBrkExpr x = true ↔ ∃ l, x = .brk l := by
+  cases x <;> simp [isCtlExpr, isBrkExpr]
+
+theorem isCtlExpr_cases (x : Expr) : isCtlExpr x = Option.none ∨ (∃ l, x = .pass l) ∨ (∃ l, x = .brk l) := by
+  cases x <;> simp [isCtlExpr]
+
+theorem placedOK_cons_plain (x : Expr) (xs : List Expr) (h : isCtlExpr x = Option.none) :
+    placedOK (x :: xs) = placedOK xs := by
+  obtain ⟨hp, hb⟩ := (isCtlExpr_isNone_iff x).1 h
+  simp [placedOK, ctlMixed, actionAfterPass, attAfterBreak, List.dropWhile, hp, hb]
+
+/-- A `placedOK` list: actions and attachment blocks `es`, then nothing, or `pass` followed by
+`pass` only (no `break` anywhere), or `break` followed by anything but `pass` and attachment blocks. -/
+theorem placedOK_shape : ∀ (xs : List Expr), placedOK xs = true →
+    ∃ es tail, xs = es ++ tail ∧ (∀ x ∈ es, isCtlExpr x = Option.none) ∧
+      (tail = [] ∨
+       (∃ lp ps, tail = .pass lp :: ps ∧ ∀ x ∈ ps, isPassExpr x = true) ∨
+       (∃ lb more, tail = .brk lb :: more ∧ ∀ x ∈ more, isPassExpr x = false ∧ isAttBlockExpr x = false)) := by
+  intro xs
+  induction xs with
+  | nil => intro _; exact ⟨[], [], rfl, by simp, Or.inl rfl⟩
+  | cons x xs ih =>
+    intro h
+    rcases isCtlExpr_cases x with hx | ⟨l, rfl⟩ | ⟨l, rfl⟩
+    · rw [placedOK_cons_plain x xs hx] at h
+      obtain ⟨es, tail, h1, h2, h3⟩ := ih h
+      refine ⟨x :: es, tail, by simp [h1], ?_, h3⟩
+      intro y hy
+      rcases List.mem_cons.1 hy with rfl | hy
+      · exact hx
+      · exact h2 y hy
+    · refine ⟨[], .pass l :: xs, rfl, by simp, Or.inr (Or.inl ⟨l, xs, rfl, ?_⟩)⟩
+      simp only [placedOK, ctlMixed, actionAfterPass, attAfterBreak, List.dropWhile, isPassExpr, isBrkExpr, isCtlExpr,
+        List.any_cons, Bool.and_eq_true, Bool.not_eq_true'] at h
+      have h2 := h.1.2
+      simp only [beq_self_eq_true, Bool.not_true, List.drop_one, List.tail_cons, List.any_eq_false,
+        Bool.not_eq_true', Bool.not_eq_false] at h2
+      intro y hy
+      exact h2 y hy
+    · refine ⟨[], .brk l :: xs, rfl, by simp, Or.inr (Or.inr ⟨l, xs, rfl, ?_⟩)⟩
+      simp only [placedOK, ctlMixed, actionAfterPass, attAfterBreak, List.dropWhile, isPassExpr, isBrkExpr, isCtlExpr,
+        List.any_cons, Bool.and_eq_true, Bool.not_eq_true'] at h
+      have h1 := h.1.1
+      have h3 := h.2
+      simp only [beq_self_eq_true, Bool.not_true, List.drop_one, List.tail_cons, List.any_eq_false] at h3
+      intro y hy
+      refine ⟨?_, by simpa using h3 y hy⟩
+      simp only [Bool.and_eq_false_iff] at h1
+      rcases h1 with h1 | h1
+      · simp only [Bool.or_eq_false_iff, List.any_eq_false] at h1
+        simpa [isPassExpr] using h1.2 y hy
+      · simp at h1
+
+/-- What may stand after the first `break` of a `placedOK` list, and the plain actions among it. -/
+def AfterBrk (more pl : List Expr) : Prop :=
+  pl = more.filter isActionExpr ∧ ∀ x ∈ more, isActionExpr x = true ∨ ∃ l, x = .brk l
+
+theorem att_parseItems_afterBrk : ∀ (more : List Expr) (t : List ActA),
+    (∀ x ∈ more, isPassExpr x = false ∧ isAttBlockExpr x = false) → att_parseItems more = some t →
+    ∃ pl, AfterBrk more pl ∧ t = pl.map ActA.plain := by
+  intro more
+  induction more with
+  | nil =>
+    intro t _ h
+    simp only [att_parseItems, Option.some.injEq] at h
+    exact ⟨[], ⟨rfl, by simp⟩, by simp [← h]⟩
+  | cons x xs ih =>
+    intro t hall h
+    have hx := hall x (by simp)
+    have hxs : ∀ y ∈ xs, isPassExpr y = false ∧ isAttBlockExpr y = false := fun y hy => hall y (by simp [hy])
+    simp only [att_parseItems] at h
+    by_cases hc : (isCtlExpr x).isSome = true
+    · simp only [hc, if_true] at h
+      obtain ⟨pl, ⟨hp1, hp2⟩, hp3⟩ := ih t hxs h
+      have hb : ∃ l, x = .brk l := by
+        rcases isCtlExpr_cases x with hn | ⟨l, rfl⟩ | hb
+        · rw [hn] at hc; cases hc
+        · simp [isPassExpr, isCtlExpr] at hx
+        · exact hb
+      have hna : isActionExpr x = false := by obtain ⟨l, rfl⟩ := hb; rfl
+      refine ⟨pl, ⟨by simp [List.filter, hna, hp1], ?_⟩, hp3⟩
+      intro y hy
+      rcases List.mem_cons.1 hy with rfl | hy
+      · exact Or.inr hb
+      · exact hp2 y hy
+    · simp only [hc, Bool.false_eq_true, if_false] at h
+      cases hpa : parseActAW x with
+      | none => simp [hpa] at h
+      | some a =>
+        cases hps : att_parseItems xs with
+        | none => simp [hpa, hps] at h
+        | some ts =>
+          simp only [hpa, hps, Option.some.injEq] at h
+          obtain ⟨pl, ⟨hp1, hp2⟩, hp3⟩ := ih ts hxs hps
+          rcases att_parseActA_spec hpa with ⟨l, l', e, rs, rfl, _, _⟩ | ⟨ha, hact⟩
+          · simp [isAttBlockExpr] at hx
+          · refine ⟨x :: pl, ⟨by simp [List.filter, hact, hp1], ?_⟩, by simp [← h, ha, hp3]⟩
+            intro y hy
+            rcases List.mem_cons.1 hy with rfl | hy
+            · exact Or.inl hact
+            · exact hp2 y hy
+
+theorem att_parseItems_passes : ∀ (ps : List Expr), (∀ x ∈ ps, isPassExpr x = true) → att_parseItems ps = some [] := by
+  intro ps
+  induction ps with
+  | nil => intro _; rfl
+  | cons x xs ih =>
+    intro h
+    obtain ⟨l, rfl⟩ := (isPassExpr_iff x).1 (h x (by simp))
+    simp only [att_parseItems, isCtlExpr, Option.isSome_some, if_true]
+    exact ih fun y hy => h y (by simp [hy])
+
+theorem ctlOfList_noctl (es : List Expr) (h : ∀ x ∈ es, isCtlExpr x = Option.none) : ctlOfList es = some Ctl.none := by
+  have hp : es.any isPassExpr = false := by
+    rw [List.any_eq_false]; intro x hx; simpa using ((isCtlExpr_isNone_iff x).1 (h x hx)).1
+  have hb : es.any isBrkExpr = false := by
+    rw [List.any_eq_false]; intro x hx; simpa using ((isCtlExpr_isNone_iff x).1 (h x hx)).2
+  simp [ctlOfList, hp, hb]
+
+theorem ctlOfList_pass (es ps : List Expr) (lp : Nat) (h : ∀ x ∈ es, isCtlExpr x = Option.none)
+    (hps : ∀ x ∈ ps, isPassExpr x = true) : ctlOfList (es ++ .pass lp :: ps) = some Ctl.pass := by
+  have hb : (es ++ Expr.pass lp :: ps).any isBrkExpr = false := by
+    rw [List.any_eq_false]
+    intro x hx
+    rcases List.mem_append.1 hx with hx | hx
+    · simpa using ((isCtlExpr_isNone_iff x).1 (h x hx)).2
+    · rcases List.mem_cons.1 hx with rfl | hx
+      · simp [isBrkExpr, isCtlExpr]
+      · obtain ⟨l, rfl⟩ := (isPassExpr_iff x).1 (hps x hx)
+        simp [isBrkExpr, isCtlExpr]
+  have hp : (es ++ Expr.pass lp :: ps).any isPassExpr = true := by
+    simp [isPassExpr, isCtlExpr]
+  simp [ctlOfList, hp, hb]
+
+theorem ctlOfList_brk (es more : List Expr) (lb : Nat) (h : ∀ x ∈ es, isCtlExpr x = Option.none)
+    (hm : ∀ x ∈ more, isPassExpr x = false ∧ isAttBlockExpr x = false) :
+    ctlOfList (es ++ .brk lb :: more) = some Ctl.brk := by
+  have hp : (es ++ Expr.brk lb :: more).any isPassExpr = false := by
+    rw [List.any_eq_false]
+    intro x hx
+    rcases List.mem_append.1 hx with hx | hx
+    · simpa using ((isCtlExpr_isNone_iff x).1 (h x hx)).1
+    · rcases List.mem_cons.1 hx with rfl | hx
+      · simp [isPassExpr, isCtlExpr]
+      · simpa using (hm x hx).1
+  have hb : (es ++ Expr.brk lb :: more).any isBrkExpr = true := by
+    simp [isBrkExpr, isCtlExpr]
+  simp [ctlOfList, hp, hb]
+
+/-- The shapes of a rule whose action list is `placedOK`: a nested block; or actions and attachment
+blocks `es` followed by nothing (no control), by `pass` and whatever follows it (only `pass`), or by
+`break` and a mix of plain actions `pl` and further `break`. -/
+theorem att_parseRuleA_spec {x : Expr} {r : RuleA} (h : parseRuleAW x = some r) (hpl : ctlPlaced x = true) :
     (∃ lno c l e rs, x = .mtch lno c (.block l e) ∧ r = .blk lno c rs ∧ isCond c = true ∧
-      parseRulesA e = some rs) ∨
-    (∃ lno c rhs as ctl es tail, x = .mtch lno c rhs ∧ r = .acts lno c as ctl ∧ isCond c = true ∧
-      andChain rhs = es ++ tail ∧ att_parseActs es = some as ∧
-      ((ctl = .none ∧ tail = [] ∧ as ≠ []) ∨ (∃ xc, tail = [xc] ∧ isCtlExpr xc = some ctl))) := by
+      parseRulesAW e = some rs) ∨
+    (∃ lno c rhs as ctl es tail as0, x = .mtch lno c rhs ∧ r = .acts lno c as ctl ∧ isCond c = true ∧
+      andChain rhs = es ++ tail ∧ att_parseActs es = some as0 ∧
+      ∃ pl, as = as0 ++ pl.map ActA.plain ∧
+      ((ctl = .none ∧ tail = [] ∧ pl = [] ∧ as0 ≠ []) ∨
+       (ctl = .pass ∧ pl = [] ∧ ∃ lp ps, tail = .pass lp :: ps) ∨
+       (ctl = .brk ∧ ∃ lb more, tail = .brk lb :: more ∧ AfterBrk more pl))) := by
   cases x with
   | mtch lno c rhs =>
     by_cases hc : isCond c = true
-    · cases rhs with
-      | block l e =>
+    · by_cases hb : ∃ l e, rhs = .block l e
+      · obtain ⟨l, e, rfl⟩ := hb
         left
-        simp only [parseRuleA, hc, Bool.not_true, Bool.false_eq_true, if_false, Option.map_eq_some_iff] at h
+        simp only [parseRuleAW, hc, Bool.not_true, Bool.false_eq_true, if_false, Option.map_eq_some_iff] at h
         obtain ⟨rs, h1, h2⟩ := h
         exact ⟨lno, c, l, e, rs, rfl, h2.symm, hc, h1⟩
-      | and l0 l r0 =>
-        right
-        simp only [parseRuleA, hc, Bool.not_true, Bool.false_eq_true, if_false] at h
-        cases hctl : isCtlExpr r0 with
-        | some ctl =>
-          simp only [hctl, Option.map_eq_some_iff] at h
-          obtain ⟨as, h1, h2⟩ := h
-          exact ⟨lno, c, _, as, ctl, andChain l, [r0], rfl, h2.symm, hc, rfl, att_parseChainA_andChain l as h1,
-            Or.inr ⟨r0, rfl, hctl⟩⟩
-        | none =>
-          simp only [hctl] at h
-          cases hl : parseChainA l with
-          | none => simp [hl] at h
-          | some ls =>
-            cases hr : parseActA r0 with
-            | none => simp [hl, hr] at h
-            | some a =>
-              simp only [hl, hr, Option.some.injEq] at h
-              refine ⟨lno, c, _, ls ++ [a], .none, andChain l ++ [r0], [], rfl, h.symm, hc, by simp [andChain],
-                att_parseActs_snoc _ _ _ _ (att_parseChainA_andChain l ls hl) hr, Or.inl ⟨rfl, rfl, by simp⟩⟩
-      | _ =>
-        right
-        simp only [parseRuleA, hc, Bool.not_true, Bool.false_eq_true, if_false] at h
-        first
-          | (simp only [isCtlExpr, Option.some.injEq] at h
-             exact ⟨lno, c, _, [], _, [], [_], rfl, h.symm, hc, rfl, rfl, Or.inr ⟨_, rfl, rfl⟩⟩)
-          | (simp only [isCtlExpr, Option.map_eq_some_iff] at h
-             obtain ⟨a, h1, h2⟩ := h
-             exact ⟨lno, c, _, [a], .none, [_], [], rfl, h2.symm, hc, rfl, by simp [att_parseActs, h1],
-               Or.inl ⟨rfl, rfl, by simp⟩⟩)
-    · cases rhs <;> simp [parseRuleA, hc] at h
-  | _ => simp [parseRuleA] at h
+      · right
+        have hnb : ∀ l e, rhs ≠ .block l e := fun l e he => hb ⟨l, e, he⟩
+        have hpo : placedOK (andChain rhs) = true := by
+          simp only [ctlPlaced, Bool.and_eq_true] at hpl
+          have := hpl.2
+          cases rhs <;> first | exact this | exact absurd rfl (hnb _ _)
+        have hcv : ∃ ctl as, ctlOfList (andChain rhs) = some ctl ∧ parseChainAW rhs = some as ∧ r = .acts lno c as ctl := by
+          rw [parseRuleAW.eq_def] at h
+          simp only [hc, Bool.not_true, Bool.false_eq_true, if_false] at h
+          cases rhs with
+          | block l e => exact absurd rfl (hnb l e)
+          | _ =>
+            split at h
+            · rename_i ctl as h1 h2
+              simp only [Option.some.injEq] at h
+              exact ⟨ctl, as, h1, h2, h.symm⟩
+            · cases h
+        obtain ⟨ctl, as, hctl, hchain, rfl⟩ := hcv
+        rw [att_parseChainAW_andChain] at hchain
+        obtain ⟨es, tail, hsplit, hes, hshape⟩ := placedOK_shape _ hpo
+        rw [hsplit, att_parseItems_append es tail hes] at hchain
+        rw [hsplit] at hctl
+        cases has0 : att_parseActs es with
+        | none => simp [has0] at hchain
+        | some as0 =>
+          cases ht : att_parseItems tail with
+          | none => simp [has0, ht] at hchain
+          | some t =>
+            simp only [has0, ht, Option.some.injEq] at hchain
+            refine ⟨lno, c, rhs, as, ctl, es, tail, as0, rfl, rfl, hc, hsplit, has0, ?_⟩
+            rcases hshape with rfl | ⟨lp, ps, rfl, hps⟩ | ⟨lb, more, rfl, hmore⟩
+            · simp only [att_parseItems, Option.some.injEq] at ht
+              subst ht
+              rw [List.append_nil, ctlOfList_noctl es hes] at hctl
+              simp only [Option.some.injEq] at hctl
+              rw [List.append_nil] at hchain hsplit
+              refine ⟨[], by simp [← hchain], Or.inl ⟨hctl.symm, rfl, rfl, ?_⟩⟩
+              intro hn
+              have hl := att_parseActs_length es as0 has0
+              rw [hn] at hl
+              have : es = [] := List.eq_nil_of_length_eq_zero hl.symm
+              rw [this] at hsplit
+              exact att_andChain_ne_nil rhs hsplit
+            · rw [ctlOfList_pass es ps lp hes hps] at hctl
+              simp only [Option.some.injEq] at hctl
+              have : att_parseItems (Expr.pass lp :: ps) = some [] :=
+                att_parseItems_passes _ (by
+                  intro y hy
+                  rcases List.mem_cons.1 hy with rfl | hy
+                  · simp [isPassExpr, isCtlExpr]
+                  · exact hps y hy)
+              rw [this] at ht
+              simp only [Option.some.injEq] at ht
+              subst ht
+              rw [List.append_nil] at hchain
+              exact ⟨[], by simp [← hchain], Or.inr (Or.inl ⟨hctl.symm, rfl, lp, ps, rfl⟩)⟩
+            · rw [ctlOfList_brk es more lb hes hmore] at hctl
+              simp only [Option.some.injEq] at hctl
+              have ht' : att_parseItems more = some t := by
+                simpa [att_parseItems, isCtlExpr] using ht
+              obtain ⟨pl, hpl1, hpl2⟩ := att_parseItems_afterBrk more t hmore ht'
+              exact ⟨pl, by rw [← hchain, hpl2], Or.inr (Or.inr ⟨hctl.symm, lb, more, rfl, hpl1⟩)⟩
+    · cases rhs <;> simp [parseRuleAW, hc] at h
+  | _ => simp [parseRuleAW] at h
 
 theorem att_isCtlExpr_spec {x : Expr} {ctl : Ctl} (h : isCtlExpr x = some ctl) :
     (ctl = .pass ∧ ∃ l, x = .pass l) ∨ (ctl = .brk ∧ ∃ l, x = .brk l) :=
@@ -221,6 +490,50 @@ theorem att_okA_andChain {L : Nat} {o : Bool} {k : Nat} : ∀ (e : Expr), okA L 
     intro h x hx
     simp only [andChain, List.mem_singleton] at hx
     rw [hx]; exact h
+
+/-! ## `ctlPlaced` along the chains -/
+
+theorem ctlPlaced_orChain : ∀ (e : Expr), ctlPlaced e = true → ∀ x ∈ orChain e, ctlPlaced x = true := by
+  intro e
+  induction e with
+  | or lno l r ihl _ =>
+    intro h x hx
+    rw [orChain] at hx
+    simp only [ctlPlaced, Bool.and_eq_true] at h
+    rcases List.mem_append.1 hx with hx | hx
+    · exact ihl h.1 x hx
+    · simp only [List.mem_singleton] at hx; rw [hx]; exact h.2
+  | _ =>
+    intro h x hx
+    simp only [orChain, List.mem_singleton] at hx
+    rw [hx]; exact h
+
+theorem ctlPlaced_andChain : ∀ (e : Expr), ctlPlaced e = true → ∀ x ∈ andChain e, ctlPlaced x = true := by
+  intro e
+  induction e with
+  | and lno l r ihl _ =>
+    intro h x hx
+    rw [andChain] at hx
+    simp only [ctlPlaced, Bool.and_eq_true] at h
+    rcases List.mem_append.1 hx with hx | hx
+    · exact ihl h.1 x hx
+    · simp only [List.mem_singleton] at hx; rw [hx]; exact h.2
+  | _ =>
+    intro h x hx
+    simp only [andChain, List.mem_singleton] at hx
+    rw [hx]; exact h
+
+theorem ctlPlaced_mtch_rhs {lno : Nat} {c rhs : Expr} (h : ctlPlaced (.mtch lno c rhs) = true) : ctlPlaced rhs = true := by
+  simp only [ctlPlaced, Bool.and_eq_true] at h
+  exact h.1.2
+
+theorem att_sizeOf_append_left {α : Type} [SizeOf α] (a b : List α) : sizeOf a ≤ sizeOf (a ++ b) := by
+  induction a with
+  | nil =>
+    cases b with
+    | nil => exact Nat.le_refl _
+    | cons y ys => simp only [List.nil_append, List.nil.sizeOf_spec, List.cons.sizeOf_spec]; omega
+  | cons x xs ih => simp only [List.cons_append, List.cons.sizeOf_spec]; omega
 
 /-! ## the specification run only grows -/
 
@@ -354,5 +667,71 @@ theorem att_run_mono {α : Type} (cx : PartCtx α) (aerr : Expr → Bool) (n : N
             · cases b
               · exact h0.trans h1
               · exact (h0.trans h1).trans (ihA rest hrest _ _ _ _)
+
+/-! ## action lists of the specification run -/
+
+theorem att_evalActsA_append {α : Type} (cx : PartCtx α) (aerr : Expr → Bool) (hasPass : Bool) (k : Nat) (m : α) :
+    ∀ (a b : List ActA) (run : RunA),
+    evalActsA cx aerr hasPass k m (a ++ b) run =
+      match evalActsA cx aerr hasPass k m a run with
+      | (some true, run1) => evalActsA cx aerr hasPass k m b run1
+      | other => other := by
+  intro a
+  induction a with
+  | nil => intro b run; rw [List.nil_append]; conv => rhs; rw [evalActsA]
+  | cons x xs ih =>
+    intro b run
+    cases x with
+    | plain e =>
+      rw [List.cons_append, evalActsA]
+      conv => rhs; rw [evalActsA]
+      by_cases he : aerr e = true
+      · simp only [he, if_true]
+      · simp only [he, Bool.false_eq_true, if_false]
+        exact ih b _
+    | att l rs =>
+      rw [List.cons_append, evalActsA]
+      conv => rhs; rw [evalActsA]
+      cases cx.parts m with
+      | none => rfl
+      | some ps =>
+        dsimp only
+        rcases forParts (fun i q r => evalRulesA cx aerr true hasPass r.pend.length (partIndex k i) q rs false r) 0 ps false
+          { run with crosses := run.crosses || (hasPass && !ps.isEmpty) } with ⟨o, run1⟩
+        rcases o with _ | o
+        · rfl
+        · cases o
+          · rfl
+          · exact ih b run1
+
+/-- A list of plain actions: an error iff one of them cannot be evaluated, else all are collected. -/
+theorem att_evalActsA_plain {α : Type} (cx : PartCtx α) (aerr : Expr → Bool) (hasPass : Bool) (k : Nat) (m : α) :
+    ∀ (as : List Expr) (runA : RunA),
+    (as.any aerr = true → ∃ r, evalActsA cx aerr hasPass k m (as.map ActA.plain) runA = (Option.none, r) ∧
+      r.crosses = runA.crosses ∧ r.leaks = runA.leaks) ∧
+    (as.any aerr = false → evalActsA cx aerr hasPass k m (as.map ActA.plain) runA =
+      (some true, { runA with pend := runA.pend ++ as.map fun a => (k, a) })) := by
+  intro as
+  induction as with
+  | nil =>
+    intro runA
+    refine ⟨fun h => by simp at h, fun _ => ?_⟩
+    rw [List.map_nil, evalActsA]
+    simp
+  | cons a as ih =>
+    intro runA
+    rw [List.map_cons, evalActsA]
+    by_cases ha : aerr a = true
+    · simp only [ha, if_true]
+      exact ⟨fun _ => ⟨runA, rfl, rfl, rfl⟩, fun h => by simp [ha] at h⟩
+    · simp only [ha, Bool.false_eq_true, if_false]
+      obtain ⟨i1, i2⟩ := ih { runA with pend := runA.pend ++ [(k, a)] }
+      have hany : (a :: as).any aerr = as.any aerr := by simp [ha]
+      rw [hany]
+      refine ⟨fun h => ?_, fun h => ?_⟩
+      · obtain ⟨r, h1, h2, h3⟩ := i1 h
+        exact ⟨r, h1, h2, h3⟩
+      · rw [i2 h]
+        simp [List.append_assoc]
 
 end Mdsort.Proofs
